@@ -42,3 +42,26 @@ Corollary fresh_then_again fuel h cfg tp plan p : schemas_distinct h -> ops_dist
   lookup (gen plan (gen plan [])) p = lookup (gen plan []) p.
 Proof. intros. eapply regenerate_in_place; eauto. constructor. Qed.
 End Plan.
+
+(* ---------- the file-system theorems instantiated with the plan of the generated crate ---------- *)
+Section CratePlan.
+Variable fmt : str -> str.
+
+(* C10 for the real plan: whatever the document and configuration (under D's name distinctness), a file marked static is
+   byte-identical after the generation *)
+Theorem crate_static_untouched fuel h cfg tp plan t p c : schemas_distinct h -> ops_distinct h ->
+  crate_plan fmt fuel h cfg tp = Ok plan -> wf t ->
+  lookup t p = Some c -> has_static (decode c) = true -> lookup (gen plan t) p = Some c.
+Proof.
+  intros Hs Ho Hp Hw Hl Hst. eapply static_untouched; eauto. eapply crate_plan_wf; eauto.
+Qed.
+
+(* C12 for the real plan: what is in scope afterwards is exactly what the crate consists of (plus static files) *)
+Theorem crate_cleanup_exact fuel h cfg tp plan t p : schemas_distinct h -> ops_distinct h ->
+  crate_plan fmt fuel h cfg tp = Ok plan -> wf t -> in_scope p = true ->
+  (lookup (gen plan t) p <> None <->
+   planned plan p = true \/ exists c, lookup t p = Some c /\ has_static (decode c) = true).
+Proof.
+  intros Hs Ho Hp Hw Hin. apply cleanup_exact; [eapply crate_plan_wf; eauto|exact Hw|exact Hin].
+Qed.
+End CratePlan.
